@@ -457,6 +457,17 @@ mod encoded {
             }
         }
     }
+
+    /// Verification hook: one step of the private bit iterator over `bytes` from the cursor `bit_range`.
+    /// Returns the chunk `(bits, count)` and the advanced cursor, or `None` when the range is exhausted.
+    #[cfg(feature = "verif-hooks")]
+    pub fn verif_bit_chunk(
+        bytes: &[u8],
+        bit_range: (usize, usize),
+    ) -> Option<((u8, usize), (usize, usize))> {
+        let mut iter = BitIterator { bytes, bit_range };
+        iter.next().map(|chunk| (chunk, iter.bit_range))
+    }
 }
 
 mod huffman {
@@ -606,6 +617,51 @@ mod huffman {
         Fork(usize, usize),
     }
 
+    #[cfg(feature = "verif-hooks")]
+    impl<T: Ord + Clone> Huffman<T> {
+        /// Verification hook: assemble a code from explicit `(symbol, bits, code)` triples (`code` right-aligned in
+        /// `bits` bits), using the real `insert_decode` for the decoding table. The caller is responsible for the
+        /// triples forming a prefix code.
+        pub fn verif_from_triples(triples: &[(T, usize, u64)]) -> Self {
+            let mut encode = BTreeMap::new();
+            let mut decode: [Decode<T>; 256] = core::array::from_fn(|_| Decode::Void);
+            for (sym, bits, code) in triples {
+                encode.insert(sym.clone(), (*bits, *code));
+                Self::insert_decode(&mut decode, sym, *bits, *code << (64 - *bits));
+            }
+            Huffman { encode, decode }
+        }
+
+        /// Verification hook: a code whose decoding table is entirely void and whose encoding map is empty (what
+        /// `create_from` returns for empty statistics), without the `Vec` to array conversion.
+        pub fn verif_empty() -> Self {
+            Huffman {
+                encode: BTreeMap::new(),
+                decode: core::array::from_fn(|_| Decode::Void),
+            }
+        }
+
+        /// Verification hook: the real `create_from`.
+        pub fn verif_create_from(counts: BTreeMap<T, i64>) -> Self {
+            Self::create_from(counts)
+        }
+
+        /// Verification hook: `(bits, code)` assigned to `symbol`, if any.
+        pub fn verif_code_of(&self, symbol: &T) -> Option<(usize, u64)> {
+            self.encode.get(symbol).copied()
+        }
+
+        /// Verification hook: a decoder over this code's table in an explicit mid-stream state.
+        pub fn verif_decoder<I: Iterator<Item = (u8, usize)>>(
+            &self,
+            bytes: I,
+            pending_byte: u16,
+            pending_bits: usize,
+        ) -> Decoder<'_, T, I> {
+            Decoder::verif_with_state(&self.decode, bytes, pending_byte, pending_bits)
+        }
+    }
+
     /// Decoder
     #[derive(Eq, PartialEq, Ord, PartialOrd, Debug, Default, Clone)]
     pub enum Decode<T> {
@@ -667,6 +723,29 @@ mod huffman {
                     pending_byte: pending_byte.into(),
                     pending_bits,
                 }
+            }
+        }
+
+        #[cfg(feature = "verif-hooks")]
+        impl<'a, T, I> Decoder<'a, T, I> {
+            /// Verification hook: a decoder in an explicit mid-stream state.
+            pub fn verif_with_state(
+                decode: &'a [Decode<T>; 256],
+                bytes: I,
+                pending_byte: u16,
+                pending_bits: usize,
+            ) -> Self {
+                Self {
+                    decode,
+                    bytes,
+                    pending_byte,
+                    pending_bits,
+                }
+            }
+
+            /// Verification hook: the `(pending_byte, pending_bits)` part of the decoder state.
+            pub fn verif_state(&self) -> (u16, usize) {
+                (self.pending_byte, self.pending_bits)
             }
         }
 
@@ -798,6 +877,71 @@ mod huffman {
                 self.pending_byte &= (1 << self.pending_bits) - 1;
                 Some(Ok(byte as u8))
             }
+        }
+    }
+}
+
+/// Verification hooks: add-only access to the private bit-level kernels of the Huffman container, compiled only
+/// with the `verif-hooks` feature (see /verif/DESIGN.md).
+#[cfg(feature = "verif-hooks")]
+pub mod verif_hooks {
+    use std::collections::BTreeMap;
+
+    use super::huffman::Huffman;
+    use super::wrapper::Wrapped;
+    use super::{push_symbols, Encoded};
+
+    /// One step of the private bit iterator: the next chunk `(bits, count)` of `bytes[range]` and the advanced range.
+    pub fn bit_chunk(bytes: &[u8], range: (usize, usize)) -> Option<((u8, usize), (usize, usize))> {
+        super::encoded::verif_bit_chunk(bytes, range)
+    }
+
+    /// A Huffman code (the private `Huffman<B>`), with access to its encoder, decoder and the container's
+    /// `push_symbols`.
+    pub struct Code<B: Ord>(Huffman<B>);
+
+    impl<B: Ord + Clone> Code<B> {
+        /// A code assembled from explicit `(symbol, bits, code)` triples through the real table insertion.
+        pub fn from_triples(triples: &[(B, usize, u64)]) -> Self {
+            Code(Huffman::verif_from_triples(triples))
+        }
+
+        /// The code `create_from` yields for empty statistics (empty map, all-void table).
+        pub fn empty() -> Self {
+            Code(Huffman::verif_empty())
+        }
+
+        /// The real `Huffman::create_from`.
+        pub fn create_from(counts: BTreeMap<B, i64>) -> Self {
+            Code(Huffman::verif_create_from(counts))
+        }
+
+        /// `(bits, code)` of `symbol`.
+        pub fn code_of(&self, symbol: &B) -> Option<(usize, u64)> {
+            self.0.verif_code_of(symbol)
+        }
+
+        /// The container's `push_symbols`: append the encoding of `symbols` to `(bytes, bits)`.
+        pub fn push(&self, bytes: &mut Vec<u8>, bits: &mut usize, symbols: &[B]) -> (usize, usize) {
+            push_symbols(&self.0, bytes, bits, symbols.iter())
+        }
+
+        /// The read item the container hands out for `range` of `bytes` under this code.
+        pub fn read<'a>(&'a self, bytes: &'a [u8], range: (usize, usize)) -> Wrapped<'a, B> {
+            Wrapped::encoded(Encoded::new(&self.0, bytes, range))
+        }
+
+        /// One `Decoder::next` from the explicit state `(pending_byte, pending_bits)` with at most one further chunk
+        /// available; returns the decoded symbol and the state afterwards.
+        pub fn decode_step(
+            &self,
+            pending_byte: u16,
+            pending_bits: usize,
+            next: Option<(u8, usize)>,
+        ) -> (Option<&B>, (u16, usize)) {
+            let mut decoder = self.0.verif_decoder(next.into_iter(), pending_byte, pending_bits);
+            let symbol = decoder.next();
+            (symbol, decoder.verif_state())
         }
     }
 }
